@@ -117,7 +117,7 @@ def check_case(case, ctx=None):
         h.world.app_log.connect_sends = list(greets)
         c = h.client_call('connect', case['url'], transports=case['transports'],
                           engineio_path=case['path'])
-        h.run_until(lambda: c.done, 40)
+        h.run_until(lambda: c.done, max(40, 2 * RT + 10))
         check_urls(h, impl, case, rep)
         uq = urllib.parse.parse_qs(urllib.parse.urlsplit(case['url']).query)
         collides = any(k in uq for k in ('EIO', 'transport', 'sid', 'j'))
@@ -127,6 +127,15 @@ def check_case(case, ctx=None):
             if not case['faults'] and not collides:
                 raise V(impl, 'connect-failed', 'no-fault', 'connect(): done=%s exc=%r' % (
                     c.done, c.exc), rep)
+            # a polling connection whose HTTP side is undisturbed succeeds whatever happens on
+            # the upgrade socket: the client "otherwise stays on polling" (each handshake read
+            # is bounded by request_timeout)
+            if case['transports'] != ['websocket'] and not collides and \
+                    all(f['on'] == 'ws-recv' for f in case['faults']):
+                raise V(impl, 'connect-failed', 'upgrade-socket-fault-only|' + ftrig + (
+                    '|never-returned' if not c.done else ''),
+                    'connect(): done=%s exc=%r although only the upgrade socket misbehaved' % (
+                        c.done, c.exc), rep)
             if ctx:
                 ctx.case(rep, True, [impl, 'connect-failed-under-script'])
             return
